@@ -7,6 +7,8 @@
 package main
 
 import (
+	"crypto/sha256"
+	"encoding/hex"
 	"go/ast"
 	"go/token"
 	"strconv"
@@ -219,5 +221,85 @@ func main() {
 		return true
 	})
 	out.Def("setpgid", "Bool", xlib.LeanBool(setpgid))
+
+	// canonical skeletons of the code the supervisor model transcribes (digests; the text is kept as a comment)
+	startIdx := -1
+	for i, st := range ew.Body.List {
+		if strings.Contains(f.Src(st), ".Start()") {
+			startIdx = i
+			break
+		}
+	}
+	if startIdx < 0 {
+		xlib.Unreadable("ExecWithTimeout: no cmd.Start()")
+	}
+	emitSkeleton(out, "skelExecTail", skeleton(f, ew, startIdx))
+	emitSkeleton(out, "skelKillProcess", skeleton(f, kp, 0))
+	emitSkeleton(out, "skelSendSignal", skeleton(f, ss, 0))
+	emitSkeleton(out, "skelRunCommand", skeleton(f, f.Func("runCommand"), 0))
 	out.Write()
+}
+
+// skeleton renders the statements of fn's body from index `from` on, canonically: parameters and receiver
+// named by position, locals by order of declaration, long message strings blanked.
+func skeleton(f *xlib.File, fn *ast.FuncDecl, from int) string {
+	names := map[*ast.Object]string{}
+	np := 0
+	if fn.Recv != nil {
+		for _, fl := range fn.Recv.List {
+			for _, n := range fl.Names {
+				if n.Obj != nil {
+					names[n.Obj] = "r" + strconv.Itoa(np)
+				}
+				np++
+			}
+		}
+	}
+	np = 0
+	for _, fl := range fn.Type.Params.List {
+		for _, n := range fl.Names {
+			if n.Obj != nil {
+				names[n.Obj] = "p" + strconv.Itoa(np)
+			}
+			np++
+		}
+	}
+	nv := 0
+	ast.Inspect(fn.Body, func(n ast.Node) bool {
+		if id, ok := n.(*ast.Ident); ok && id.Obj != nil && id.Obj.Kind == ast.Var {
+			if _, seen := names[id.Obj]; !seen {
+				if d, ok := id.Obj.Decl.(ast.Node); ok && d.Pos() >= fn.Body.Pos() && d.End() <= fn.Body.End() {
+					names[id.Obj] = "v" + strconv.Itoa(nv)
+					nv++
+				}
+			}
+		}
+		return true
+	})
+	ast.Inspect(fn.Body, func(n ast.Node) bool {
+		switch x := n.(type) {
+		case *ast.Ident:
+			if x.Obj != nil {
+				if nm, ok := names[x.Obj]; ok {
+					x.Name = nm
+				}
+			}
+		case *ast.BasicLit:
+			if x.Kind == token.STRING && len(x.Value) > 6 && strings.Contains(x.Value, " ") {
+				x.Value = `"…"`
+			}
+		}
+		return true
+	})
+	var parts []string
+	for _, st := range fn.Body.List[from:] {
+		parts = append(parts, f.Src(st))
+	}
+	return strings.Join(parts, " ; ")
+}
+
+func emitSkeleton(out *xlib.Out, name, text string) {
+	sum := sha256.Sum256([]byte(text))
+	out.Raw("-- " + name + ": " + text)
+	out.Def(name, "String", xlib.LeanStr(hex.EncodeToString(sum[:12])))
 }
